@@ -29,6 +29,42 @@ def post_observed_statuses(prop, facts_path, reports):
     return out
 
 
+def _load(name):
+    import os
+    base = os.path.join(os.path.dirname(os.path.dirname(os.path.abspath(__file__))), ".cache")
+    return json.load(open(os.path.join(base, name)))
+
+
+def ob_primes(info):
+    """F9 cross-check: the prime table read from the source equals the run-time table."""
+    f, d = _load("facts.json"), _load("run/dump/dump.json")
+    if sorted(f["tables"]["primes"]) != sorted(d["primes"]):
+        return [("prime table read from util/primes.go differs from the run-time bigIntPrimes", {"source": f["tables"]["primes"], "runtime": d["primes"], "concrete": True}, "primes-table")]
+    return []
+
+
+def ob_networks(info):
+    import ipaddress
+    f, d = _load("facts.json"), _load("run/dump/dump.json")
+    a = sorted(str(ipaddress.ip_network(x, strict=False)) for x in f["tables"]["reserved_networks"])
+    b = sorted(str(ipaddress.ip_network(x, strict=False)) for x in d["networks"])
+    if a != b:
+        return [("CIDR literals read from util/ip.go differ from the run-time reservedNetworks", {"only_source": sorted(set(a) - set(b)), "only_runtime": sorted(set(b) - set(a)), "concrete": True}, "networks-table")]
+    return []
+
+
+def ob_tld(info):
+    f, d = _load("facts.json"), _load("run/dump/dump.json")
+    a = sorted((e["key"], e["gtld"], e["deleg"], e["rem"]) for e in f["tables"]["tld"])
+    b = sorted(tuple(x) for x in d["tld"])
+    if a != b:
+        diff = sorted(set(a) ^ set(b))[:10]
+        return [("tldMap literal read from util/gtld_map.go differs from the run-time map", {"differing_rows": diff, "concrete": True}, "tld-table")]
+    if len(a) != len(set(k for k, _, _, _ in a)):
+        return [("duplicate key in the tldMap literal", {"concrete": True}, "tld-dup")]
+    return []
+
+
 PROPS = {
     "C01": {
         "proofs": ["ZlProofs.Props.C01"],
@@ -78,16 +114,42 @@ PROPS = {
     "C12": {
         "proofs": ["ZlProofs.Props.C12"],
         "corr": ["filter"],
-        "search": [],
+        "search": ["meta"],
         "trusted_base": TB_COMMON,
         "assumptions": [],
     },
     "C13": {
         "proofs": ["ZlProofs.Props.C13"],
-        "corr": ["codec"],
+        "corr": ["codec", "filter"],
         "search": ["meta"],
         "trusted_base": TB_COMMON,
         "assumptions": ["CLI flag plumbing is covered by C15"],
+    },
+    "C16": {
+        "proofs": ["ZlProofs.Props.C16"],
+        "corr": ["rsa"],
+        "search": [],
+        "obligations": [ob_primes],
+        "trusted_base": TB_COMMON + ["Mathlib v4.33.0 tactics ring / linarith / nlinarith used in ZlProofs.Props.C16 (no axioms beyond the three standard ones)"],
+        "assumptions": ["A-RSA: the parser delivers N > 0 and 0 < E < 2^63 exactly as encoded (checked on every kit certificate)"],
+    },
+    "C18": {
+        "proofs": ["ZlProofs.Props.C18"],
+        "corr": ["tld"],
+        "search": [],
+        "obligations": [ob_tld],
+        "trusted_base": TB_COMMON,
+        "assumptions": ["domain strings are ASCII (strings.ToLower is Unicode-aware; modelled on ASCII)",
+                        "A-TIME: time.Parse(\"2006-01-02\") as modelled by parseDate (validated at every table date)"],
+    },
+    "C19": {
+        "proofs": ["ZlProofs.Props.C19"],
+        "corr": ["ip"],
+        "search": [],
+        "obligations": [ob_networks],
+        "trusted_base": TB_COMMON,
+        "assumptions": ["A-NET: net.IP.To4 / IsGlobalUnicast / IPNet.Contains as modelled (validated by the ip correspondence)",
+                        "networks are CIDR networks in canonical form (no host bits in the base address), contiguous masks"],
     },
     "C14": {
         "proofs": ["ZlProofs.Props.C14"],
